@@ -194,7 +194,7 @@ def applyrun(sids):
 if __name__ == "__main__":
     a = sys.argv[1:]
     if a and a[0] == "applyrun":
-        sys.exit(applyrun(a[1:] or sorted(os.listdir(os.path.join(VERIF, "seeded")))))
+        sys.exit(applyrun(a[1:] or sorted(x for x in os.listdir(os.path.join(VERIF, "seeded")) if os.path.isdir(os.path.join(VERIF, "seeded", x)))))
     if a and a[0] == "verify":
         ok, log = verify(a[1], a[2], a[3], "--full" in a)
         print("\n".join(log))
